@@ -32,14 +32,14 @@ TRUSTED = [
 ASSUMPTIONS = ["uniqueness of greedy choices is decided by the exact model on the base input"]
 
 
-def make_case(rng, B, kind):
+def make_case(rng, B, kind, overfill=None):
     n = B.shape[0]
     if kind == "qr":
         return OptCase(B, "qr")
     if kind == "ccqr":
         costs = np.array([rng.randint(-8, 8) / 4 for _ in range(n)])
         return OptCase(B, "ccqr", costs=costs)
-    kw = gen_gqr_kwargs(rng, B, feasible=True)
+    kw = gen_gqr_kwargs(rng, B, feasible=True, overfill=(rng.random() < 0.5) if overfill is None else overfill)
     if kw is None:
         return OptCase(B, "qr")
     return OptCase(B, "gqr", gqr=kw)
@@ -103,12 +103,16 @@ def transform_case(rng, case, tkind):
 
 def run(ctx: C.Ctx):
     rng = ctx.rng
-    for idx in range(ctx.scale(170, 3000)):
-        n = rng.randint(3, ctx.scale(8, 14)); m = rng.randint(2, ctx.scale(6, 10))
+    plan = [(None, None, None)] * ctx.scale(170, 3000)
+    # relabelling is the transform that moves sensor ids around: region logic that looks at ids instead of ranks shows
+    # only here, and only when the region is over-full
+    plan += [("gqr", "relabel", True)] * ctx.scale(80, 1000)
+    for idx, (fk, ft, fo) in enumerate(plan):
+        n = rng.randint(3, ctx.scale(10, 14)); m = rng.randint(2, ctx.scale(6, 10))
         B = gen.gen_generic_matrix(rng, n, m)
-        kind = rng.choice(["qr", "ccqr", "gqr", "gqr"])
-        case = make_case(rng, B, kind)
-        tkind = rng.choice(["orth", "scale", "relabel"])
+        kind = fk or rng.choice(["qr", "ccqr", "gqr", "gqr"])
+        case = make_case(rng, B, kind, fo)
+        tkind = ft or rng.choice(["orth", "scale", "relabel"])
         ctx.evaluations += 1
         label = case.kind + (":" + case.gqr.get("constraint_option", "") if case.kind == "gqr" else "")
         ctx.count(f"{label}/{tkind}")
